@@ -20,7 +20,7 @@ import (
 // C13 — evaluation is pure and history-independent; Expression() returns the source.
 
 const c13Rule = "rapid state machine over ONE evaluator and ONE filter: actions Evaluate(d_i) on a pool of 3-6 data of one type (some erroring), Execute(container of the pool: " +
-	"slice / array / map), Expression(); after every action the result is compared with a FRESH evaluator/filter on a separately realised copy of the datum, the " +
+	"slice / array / map / declared slice and map types of the same element type / a shorter array), Expression(); after every action the result is compared with a FRESH evaluator/filter on a separately realised copy of the datum, the " +
 	"datum's deep snapshot (unexported fields included) is compared before/after, and Execute's result is mutated to show it does not alias its input; " +
 	"expressions biased to matches/quantifiers/unknown value/hooks; non-trivial = the history has an erroring call followed by a non-erroring call on another datum, or " +
 	"a matches node evaluated >= 2 times; distinct by (expression, pool dump, action sequence)"
@@ -49,6 +49,25 @@ func c13Container(pool []*uni.Node, kind string) *uni.Node {
 		return &uni.Node{T: uni.ArrayOf(len(pool), et), Elems: pool}
 	case "xm":
 		m := &uni.Node{T: uni.MapOf(uni.Scalar(uni.KString), et)}
+		for i, p := range pool {
+			m.Keys = append(m.Keys, uni.Str("k"+strconv.Itoa(i)))
+			m.Elems = append(m.Elems, p)
+		}
+		return m
+	}
+	switch kind {
+	case "xn":
+		// a declared slice type of the same element type (type Docs []Doc), where the universe declares one
+		if st := uni.SliceOf(et); uni.HasNamedContainer(st) {
+			return &uni.Node{T: &uni.Type{K: uni.KSlice, Elem: et, Named: true}, Elems: pool}
+		}
+	case "xh":
+		return &uni.Node{T: uni.ArrayOf(len(pool)/2, et), Elems: pool[:len(pool)/2]}
+	case "xN":
+		m := &uni.Node{T: uni.MapOf(uni.Scalar(uni.KString), et)}
+		if uni.HasNamedContainer(m.T) {
+			m.T = &uni.Type{K: uni.KMap, Key: uni.Scalar(uni.KString), Elem: et, Named: true}
+		}
 		for i, p := range pool {
 			m.Keys = append(m.Keys, uni.Str("k"+strconv.Itoa(i)))
 			m.Elems = append(m.Elems, p)
@@ -178,13 +197,13 @@ func c13Run(t failer, c *c13Case) (errThenOk bool, matchesTwice bool) {
 			}
 			ff, _ := bexpr.CreateFilter(text)
 			fout, fe, _ := safeExecute(ff, cont.Interface())
-			same := (xerr == nil) == (fe == nil) && uni.Snapshot(out) == uni.Snapshot(fout)
-			if same && xerr != nil && h != "xm" {
+			same := (xerr == nil) == (fe == nil) && uni.Snapshot(out) == uni.Snapshot(fout) && reflect.TypeOf(out) == reflect.TypeOf(fout)
+			if same && xerr != nil && h != "xm" && h != "xN" {
 				same = xerr.Error() == fe.Error()
 			}
 			if !same {
 				violation(t, "C13", "TestC13_History", c, "step %d (after history %v): used filter returned (%s, %v), a fresh filter returns (%s, %v)", step, c.History[:step],
-					uni.Snapshot(out), xerr, uni.Snapshot(fout), fe)
+					fmt.Sprintf("%T ", out)+uni.Snapshot(out), xerr, fmt.Sprintf("%T ", fout)+uni.Snapshot(fout), fe)
 			}
 			// the result must not alias the input: scribble over it
 			if rv := reflect.ValueOf(out); xerr == nil && rv.IsValid() {
@@ -333,7 +352,7 @@ func TestC13_History(t *testing.T) {
 			case k < 6:
 				c.History = append(c.History, "e"+strconv.Itoa(rapid.IntRange(0, n-1).Draw(t, "datum")))
 			case k < 9:
-				c.History = append(c.History, []string{"xs", "xa", "xm"}[rapid.IntRange(0, 2).Draw(t, "cont")])
+				c.History = append(c.History, []string{"xs", "xa", "xm", "xn", "xh", "xN"}[rapid.IntRange(0, 5).Draw(t, "cont")])
 			default:
 				c.History = append(c.History, "s")
 			}
